@@ -786,6 +786,10 @@ func (self *pnSlice) Swap(i, j int) {
 }
 
 func (self pnSlice) Less(i, j int) bool {
+	if self.a[i].Node.v == self.a[j].Node.v {
+		// an insertion (zero-length not-found node) goes before the existing element at the same address
+		return self.a[i].Node.l < self.a[j].Node.l
+	}
 	return int(uintptr(self.a[i].Node.v)) < int(uintptr(self.a[j].Node.v))
 }
 
